@@ -1,3 +1,4 @@
+use std::collections::HashMap;
 use std::sync::atomic::Ordering;
 use std::sync::Arc;
 use std::time::Instant;
@@ -9,6 +10,21 @@ use crate::replication_ops::*;
 use crate::security::*;
 //use crate::consensus_ops::*;
 use log;
+
+/// A session counts for one database at a time: when it selects a database (the same one
+/// again or another one) the database it had selected before loses that session
+fn release_previous_db(
+    previous: Option<String>,
+    dbs_map: &HashMap<String, Database>,
+    dbs: &Arc<Databases>,
+) {
+    if let Some(previous) = previous {
+        if let Some(previous_db) = dbs_map.get(&previous) {
+            previous_db.dec_connections();
+            set_connection_counter(previous_db, &dbs);
+        }
+    }
+}
 
 fn process_request_obj(request: &Request, dbs: &Arc<Databases>, client: &mut Client) -> Response {
     match request.clone() {
@@ -255,13 +271,15 @@ fn process_request_obj(request: &Request, dbs: &Arc<Databases>, client: &mut Cli
                             let mut user_name_state = client.selected_db.user_name.write().unwrap();
 
                             if is_valid_user_token(&token, &user_name, db) {
-                                let _ = std::mem::replace(&mut *db_name_state, Some(name.clone()));
+                                let previous =
+                                    std::mem::replace(&mut *db_name_state, Some(name.clone()));
                                 let _ = std::mem::replace(
                                     &mut *user_name_state,
                                     Some(user_name.clone()),
                                 );
                                 db.inc_connections(); //Increment the number of connections
                                 set_connection_counter(db, &dbs);
+                                release_previous_db(previous, &dbs_map, &dbs);
                                 Response::Ok {}
                             } else {
                                 Response::Error {
@@ -272,9 +290,11 @@ fn process_request_obj(request: &Request, dbs: &Arc<Databases>, client: &mut Cli
                         None => {
                             if is_valid_token(&token, db) {
                                 let mut db_name_state = client.selected_db.name.write().unwrap();
-                                let _ = std::mem::replace(&mut *db_name_state, Some(name.clone()));
+                                let previous =
+                                    std::mem::replace(&mut *db_name_state, Some(name.clone()));
                                 db.inc_connections(); //Increment the number of connections
                                 set_connection_counter(db, &dbs);
+                                release_previous_db(previous, &dbs_map, &dbs);
                                 Response::Ok {}
                             } else {
                                 Response::Error {
